@@ -216,7 +216,7 @@ impl UExec {
         if auth.is_fault() {
             ctx.count(&format!("F7.{}.{}", func, auth.name()));
         }
-        match resolve_auth(auth, &c) {
+        match resolve_auth(&mut self.sim, auth, &c) {
             None => (vec![], false),
             Some((w, other)) => (vec![AuthEntry { who: self.p[w].clone(), root: AuthNode::new(&self.targets[t], func, if other { alt.clone() } else { args.clone() }) }], w == o && !other),
         }
@@ -536,7 +536,7 @@ impl World for WorldU {
     fn components() -> Value {
         json!({
             "real": ["axelar-soroban-std upgradable/ownable interfaces + derive macros (native, /repo) as instantiated in gateway, gas service, operators, ITS, interchain token and a harness contract using the derives", "upgrader (native, /repo)", "soroban-env-host 22.1 (code swap, instance storage, rollback)"],
-            "stub": ["upgrade targets are PRE-BUILT wasm from the repository (cannot be rebuilt offline): packages/axelar-soroban-std-derive/tests/testdata/contract.wasm (derived upgrade/migrate of an older build of the same macro) and contracts/upgrader/tests/testdata/dummy.wasm (0.2.0, migrate(String))", "after a real upgrade the migrate that runs is the wasm's; the tree's native migrate is reached through a migration window opened by the simulator (reported separately as probe.native_migrate_completed)", "NativeDummy: harness copy of the repository's upgrader test dummy"]
+            "stub": ["upgrade targets are PRE-BUILT wasm from the repository (cannot be rebuilt offline): packages/axelar-soroban-std-derive/tests/testdata/contract.wasm (derived upgrade/migrate of an older build of the same macro) and contracts/upgrader/tests/testdata/dummy.wasm (0.2.0, migrate(String))", "after a real upgrade the migrate that runs is the wasm's; the tree's native migrate is reached through a migration window opened by the simulator (reported separately as probe.native_migrate_completed)", "NativeDummy: harness copy of the repository's upgrader test dummy", "LabelledTarget: harness upgrade target whose version label is state stamped by upgrade and migrate (no code swap)"]
         })
     }
 
@@ -645,6 +645,7 @@ impl World for WorldU {
                 break;
             }
             ctx.step = i;
+            ex.sim.permissive_next = false;
             let eff = match op {
                 UOp::Resubmit { k } => {
                     if ex.history.is_empty() {
